@@ -22,14 +22,21 @@ TStop == Ev("stop") /\ m' = End(m, e.sid, Peer(e.side))
 TRead == Ev("read") /\ m' = Read(m, e.side, e.sid, e.n, e.eos, e.res, e.data_ok)
 TPack == Ev("pack") /\ m' = Pack(m, e.side, e.frames, e.conn_avail)
 TCtl == Ev("ctl") /\ m' = EmitCtlAll(m, e.side, e.frames)
-TDeliver == Ev("deliver") /\ m' = Deliver(m, e.from, e.frame, e.res, e.fresh)
+\* a frame the harness injected (never produced by the peer's code) voids the delivery contract of the flows it touches
+Void(st, from, fr) == IF "sid" \in DOMAIN fr THEN End(End(st, fr.sid, from), fr.sid, Peer(from)) ELSE st
+TDeliver == Ev("deliver") /\ m' = IF "inj" \in DOMAIN e THEN Void(Deliver(m, e.from, e.frame, e.res, e.fresh), e.from, e.frame)
+                                   ELSE Deliver(m, e.from, e.frame, e.res, e.fresh)
 TLose == Ev("lose") /\ m' = m
 TAck == Ev("ack") /\ m' = m
 TFinal == Ev("final") /\ m' = Final(m, e.side, e.sid, e.written, e.peer_read, e.flushed, e.peer_has_reader, e.quiescent, e.dead)
 
+\* Known deviation StaleLossPanicsAfter0RttRejection: the frames of a rejected 0-RTT flight stay in the sent
+\* journal; when loss detection reports them, the send buffers (whose state was forgotten) hit a debug assertion
+\* (release builds silently recolour never-sent bytes as lost).  The run ends there.
+TPanic == Ev("panic") /\ e.class = "stale_loss" /\ m.rej /\ m' = [m EXCEPT !.soft = "StaleLossPanicsAfter0RttRejection"]
 TraceInit == l = 1 /\ m = Init0([cli |-> NoCfg, srv |-> NoCfg, rem |-> NoCfg, hasRem |-> FALSE])
 TraceNext == TReset \/ THs \/ TOpen \/ TAccept \/ TWrite \/ TShutdown \/ TFlush \/ TCancel \/ TStop \/ TRead
-             \/ TPack \/ TCtl \/ TDeliver \/ TLose \/ TAck \/ TFinal
+             \/ TPack \/ TCtl \/ TDeliver \/ TLose \/ TAck \/ TFinal \/ TPanic
 \* every clause of the contract, reported with its reason
 ContractHolds == m.ok \/ PrintT(<<"CONTRACT", m.why>>) = FALSE
 SoftHolds == m.soft = "" \/ PrintT(<<"SOFT_VIOLATION", m.soft, l>>)
